@@ -150,14 +150,20 @@ AuthFinish(r) ==      \* the client acknowledges with an empty response; the ser
   /\ UNCHANGED <<conn, caps, cur, ncalls>>
 
 \* ---- script operations and logout
+\* LOGOUT and CAPABILITY are not script commands: the client sends them on any open connection, authenticated or
+\* not (calling them on a client that never connected is outside the model: there is no socket).  After LOGOUT
+\* the server closes the connection (RFC 5804 2.3); the client keeps its flag -- a later operation is written to
+\* the closed connection and fails there.
+NoAuthVerbs == {"LOGOUT", "CAPABILITY"}
 CallOp(v, r) ==
   /\ phase = "idle" /\ ncalls < MaxCalls
+  /\ v \in NoAuthVerbs => chan # "none"
   /\ ncalls' = ncalls + 1
-  /\ IF cliAuth
+  /\ IF cliAuth \/ v \in NoAuthVerbs
      THEN /\ wire' = Append(wire, Write(v, ""))
           /\ hist' = hist \o << <<"call", "op", v>>, <<"write", chan, v, "">>, <<"srv", "op", r>>,
                                 <<"ret", IF r = "OK" THEN "ok" ELSE "fail", "op">> >>
-          /\ chan' = IF r \in {"OK", "NO"} THEN chan ELSE "dead"
+          /\ chan' = IF r = "NO" \/ (r = "OK" /\ v # "LOGOUT") THEN chan ELSE "dead"
      ELSE /\ hist' = hist \o << <<"call", "op", v>>, <<"ret", "refused", "op">> >>
           /\ UNCHANGED <<wire, chan>>
   /\ UNCHANGED <<conn, cliAuth, srvAuth, caps, phase, cur>>
